@@ -12,6 +12,7 @@ package channelquorum
 //     the traces against specs/ChannelQuorum/Trace.tla, which evaluates C01..C04 at every step.
 
 import (
+	"context"
 	"fmt"
 	"math/rand"
 	"os"
@@ -39,26 +40,55 @@ func TestVerifChannelQuorum(t *testing.T) {
 	if err != nil {
 		t.Fatal(err)
 	}
-	runScenarios(env, rep)
 	traces := env.Pick(14, 120)
 	steps := env.Pick(45, 70)
 	rng := env.Rand()
-	for i := 0; i < traces; i++ {
-		factory := memFactory
-		// real Pebble-backed message stores (pkg/db/message behind pkg/channel/store): a few traces in
-		// the quick tier, every second one in the thorough tier
-		if (env.Thorough() && i%2 == 1) || (!env.Thorough() && i%7 == 3) {
-			dir, derr := os.MkdirTemp(env.OutDir, "mdb-")
-			if derr != nil {
-				rep.Infra("tempdir: %v", derr)
+	if os.Getenv("VERIF_CQ_VOTERS") == "5" {
+		// five voters, write quorum 3: leader + one follower is NOT a quorum (stage "five",
+		// validated against Trace5.cfg).  The scripted schedules below are written for three voters.
+		setVoters(5)
+		traces = env.Pick(8, 60)
+		for i := 0; i < env.Pick(2, 6); i++ {
+			if err := scriptedMinorityRepair(rng, rep, rec); err != nil {
+				rep.Infra("scripted minority repair %d: %v", i, err)
 				break
 			}
-			n := 0
-			factory = func() channelstore.Factory {
-				n++
-				return channelstore.NewMessageDBFactory(fmt.Sprintf("%s/node%d", dir, n))
-			}
-			rep.AddExtra("traces_on_messagedb_stores", 1)
+		}
+	} else {
+		runScenarios(env, rep)
+	}
+	// multi-mutation store calls judged by the store contract (memory store and the real MessageDB store)
+	for i := 0; i < env.Pick(4, 16); i++ {
+		factory, ferr := factoryFor(env, rep, i%2 == 1)
+		if ferr != nil {
+			rep.Infra("tempdir: %v", ferr)
+			break
+		}
+		if err := storeContractTrace(rng, rep, rec, factory, env.Pick(25, 60)); err != nil {
+			rep.Infra("store contract trace %d: %v", i, err)
+			break
+		}
+	}
+	// scripted, recorded, TLC-validated: a follower holding a same-length divergent tail receives the
+	// new leader's next proposal (memory store and the real MessageDB store)
+	for i := 0; i < env.Pick(2, 6); i++ {
+		factory, ferr := factoryFor(env, rep, i%2 == 1)
+		if ferr != nil {
+			rep.Infra("tempdir: %v", ferr)
+			break
+		}
+		if err := scriptedDivergentTail(rng, rep, rec, factory); err != nil {
+			rep.Infra("scripted divergent tail %d: %v", i, err)
+			break
+		}
+	}
+	for i := 0; i < traces; i++ {
+		// real Pebble-backed message stores (pkg/db/message behind pkg/channel/store): a few traces in
+		// the quick tier, every second one in the thorough tier
+		factory, ferr := factoryFor(env, rep, (env.Thorough() && i%2 == 1) || (!env.Thorough() && i%7 == 3))
+		if ferr != nil {
+			rep.Infra("tempdir: %v", ferr)
+			break
 		}
 		if err := randomTrace(rng, rep, rec, steps, factory); err != nil {
 			rep.Infra("random trace %d: %v", i, err)
@@ -72,6 +102,86 @@ func TestVerifChannelQuorum(t *testing.T) {
 		t.Fatal(err)
 	}
 	_ = os.Stdout.Sync()
+}
+
+func factoryFor(env kit.Env, rep *kit.Report, messageDB bool) (func() channelstore.Factory, error) {
+	if !messageDB {
+		return memFactory, nil
+	}
+	dir, err := os.MkdirTemp(env.OutDir, "mdb-")
+	if err != nil {
+		return nil, err
+	}
+	n := 0
+	rep.AddExtra("traces_on_messagedb_stores", 1)
+	return func() channelstore.Factory {
+		n++
+		return channelstore.NewMessageDBFactory(fmt.Sprintf("%s/node%d", dir, n))
+	}, nil
+}
+
+// scriptedDivergentTail: Install(A); Commit(P1) everywhere; A isolated; Commit(P2) on A fails (A's log
+// end is 2, uncommitted); Install(B) among the others (its own entry at offset 2); A healed;
+// Commit(P3...) on B.  A now holds a tail of the SAME length as the base of B's proposal but with a
+// different entry: the store contract (Trace.tla SyncExpect: the predecessor digest must match) demands
+// that A's store refuses the proposal until repair replaced the tail.
+func scriptedDivergentTail(rng *rand.Rand, rep *kit.Report, rec *kit.Recorder, factory func() channelstore.Factory) error {
+	c, err := newCluster(rec, factory, time.Hour, 2, 1<<20)
+	if err != nil {
+		return err
+	}
+	defer c.close()
+	rec.Begin(map[string]any{"cfg": map[string]any{"hedge_ms": int64(time.Hour / time.Millisecond), "retained": 2, "scripted": "divergent-tail"}}, nil)
+	perm := rng.Perm(len(voters))
+	A, B := voters[perm[0]], voters[perm[1]]
+	a1 := replication.AuthorityID{ChannelEpoch: 1, LeaderTerm: 1, FenceVersion: 1}
+	if _, err := c.install(A, mkAuthority(a1, A, false), callTimeout); err != nil {
+		return fmt.Errorf("install A: %w", err)
+	}
+	seq := 2*(50+rng.Intn(400)) + 1 // odd sequences claim server-allocated ids
+	if _, err := c.commit(A, a1, mkCommand(seq, 1, 1, 0), false, callTimeout); err != nil {
+		return fmt.Errorf("commit P1: %w", err)
+	}
+	waitLEO := func(n ch.NodeID, want uint64) bool {
+		for i := 0; i < 400; i++ {
+			if v, err := c.view(n); err == nil && v.leo >= want {
+				return true
+			}
+			time.Sleep(5 * time.Millisecond)
+		}
+		return false
+	}
+	for _, v := range voters {
+		if !waitLEO(v, 1) {
+			return fmt.Errorf("P1 did not reach node %d", v)
+		}
+	}
+	for _, v := range voters {
+		if v != A {
+			c.setReach(A, v, false)
+			c.setReach(v, A, false)
+		}
+	}
+	_, _ = c.commit(A, a1, mkCommand(seq+2, 1, 1, 0), false, 1500*time.Millisecond)
+	if !waitLEO(A, 2) {
+		return fmt.Errorf("P2 not durable on the deposed leader")
+	}
+	a2 := replication.AuthorityID{ChannelEpoch: 1, LeaderTerm: 2, FenceVersion: 1}
+	if _, err := c.install(B, mkAuthority(a2, B, false), callTimeout); err != nil {
+		return nil // fail-closed install: the recorded prefix is still validated
+	}
+	if v, err := c.view(B); err == nil && v.leo < 2 {
+		// no barrier entry at offset 2: give the new leader one entry of its own there
+		_, _ = c.commit(B, a2, mkCommand(seq+4, 1, 1, 0), false, callTimeout)
+	}
+	c.healAll()
+	rep.Cover("DivergentTailProposal")
+	for k := 0; k < 3; k++ {
+		_, _ = c.commit(B, a2, mkCommand(seq+6+2*k, 1+rng.Intn(2), 1, 0), false, callTimeout)
+	}
+	time.Sleep(30 * time.Millisecond)
+	rep.Replayed(1)
+	return nil
 }
 
 // ---- random fault driver ------------------------------------------------------------------------
@@ -261,7 +371,7 @@ func randomTrace(rng *rand.Rand, rep *kit.Report, rec *kit.Recorder, steps int, 
 		case r < 88: // change the partition
 			rep.Cover("Partition")
 			c.healAll()
-			switch rng.Intn(5) {
+			switch rng.Intn(6) {
 			case 0: // isolate one node completely
 				x := pick(voters)
 				for _, v := range voters {
@@ -286,6 +396,16 @@ func randomTrace(rng *rand.Rand, rep *kit.Report, rec *kit.Recorder, steps int, 
 					if a != b {
 						c.setReach(a, b, false)
 						c.setReach(b, a, false)
+					}
+				}
+			case 4: // a minority group {a, b} (connected to each other) split from the rest
+				a, b := pick(voters), pick(voters)
+				for _, v := range voters {
+					if v != a && v != b {
+						for _, m := range []ch.NodeID{a, b} {
+							c.setReach(m, v, false)
+							c.setReach(v, m, false)
+						}
 					}
 				}
 			default: // healed
@@ -340,6 +460,85 @@ func sortNodes(xs []ch.NodeID) {
 			xs[j], xs[j-1] = xs[j-1], xs[j]
 		}
 	}
+}
+
+// scriptedMinorityRepair records (and has TLC validate) the schedule in which an entry that never
+// reached a write quorum is spread by the leader's trailing repair to ONE follower, after which the
+// other three voters elect a new leader that rewrites that offset.  Five voters, quorum 3.
+//
+//	Install(L); Commit(P1) on everyone; L cut from all followers; Commit(P2) fails (durable on L only);
+//	one follower F reachable again -> trailing repair copies P2 to F (2 of 5 holders);
+//	{L, F} cut from the rest; Install(L2) on a third voter answered by the other three; Commit(P3).
+//
+// The specification's judgement is the trace module's: no replica's committed frontier may cover an
+// offset that a write quorum does not hold (C02_CommittedHeldByQuorum), committed prefixes agree
+// (C02_Agreement).  Which nodes play L, F, L2 is drawn from rng.
+func scriptedMinorityRepair(rng *rand.Rand, rep *kit.Report, rec *kit.Recorder) error {
+	c, err := newCluster(rec, memFactory, time.Hour, 2, 1<<20)
+	if err != nil {
+		return err
+	}
+	defer c.close()
+	rec.Begin(map[string]any{"cfg": map[string]any{"hedge_ms": int64(time.Hour / time.Millisecond), "retained": 2, "scripted": "minority-repair"}}, nil)
+	perm := rng.Perm(len(voters))
+	L, F, L2 := voters[perm[0]], voters[perm[1]], voters[perm[2]]
+	a1 := replication.AuthorityID{ChannelEpoch: 1, LeaderTerm: 1, FenceVersion: 1}
+	if _, err := c.install(L, mkAuthority(a1, L, false), callTimeout); err != nil {
+		return fmt.Errorf("install L: %w", err)
+	}
+	seq := 100 + rng.Intn(800)
+	if _, err := c.commit(L, a1, mkCommand(seq, 1, 1, 0), false, callTimeout); err != nil {
+		return fmt.Errorf("commit P1: %w", err)
+	}
+	waitLEO := func(n ch.NodeID, want uint64) bool {
+		for i := 0; i < 400; i++ {
+			if v, err := c.view(n); err == nil && v.leo >= want {
+				return true
+			}
+			time.Sleep(5 * time.Millisecond)
+		}
+		return false
+	}
+	for _, v := range voters {
+		if !waitLEO(v, 1) {
+			return fmt.Errorf("P1 did not reach node %d", v)
+		}
+	}
+	for _, v := range voters {
+		if v != L {
+			c.setReach(L, v, false)
+			c.setReach(v, L, false)
+		}
+	}
+	_, _ = c.commit(L, a1, mkCommand(seq+1, 1+rng.Intn(2), 1, 0), false, 1500*time.Millisecond)
+	if !waitLEO(L, 2) {
+		return fmt.Errorf("P2 not durable on the leader")
+	}
+	c.setReach(L, F, true)
+	c.setReach(F, L, true)
+	if !waitLEO(F, 2) {
+		rep.AddExtra("minority_repair_not_observed", 1)
+	} else {
+		rep.Cover("MinorityTrailingRepair")
+	}
+	for _, m := range []ch.NodeID{L, F} {
+		for _, v := range voters {
+			if v != L && v != F {
+				c.setReach(m, v, false)
+				c.setReach(v, m, false)
+			}
+		}
+	}
+	a2 := replication.AuthorityID{ChannelEpoch: 1, LeaderTerm: 2, FenceVersion: 1}
+	if _, err := c.install(L2, mkAuthority(a2, L2, false), callTimeout); err != nil {
+		return nil // the majority could not install (fail-closed is allowed); the recorded prefix is still validated
+	}
+	_, _ = c.commit(L2, a2, mkCommand(seq+2, 1, 1, 0), false, callTimeout)
+	_, _ = c.commit(L2, a2, mkCommand(seq+3, 1, 1, 0), false, callTimeout)
+	c.healAll()
+	time.Sleep(30 * time.Millisecond)
+	rep.Replayed(1)
+	return nil
 }
 
 // ---- scripted schedules (TLC counterexamples replayed on the real cluster) -----------------------
@@ -849,5 +1048,136 @@ func scenarioRetryStability(s *scenarioCtx) error {
 		return nil
 	}
 	check("after owner restart")
+	return nil
+}
+
+// ---- store contract under multi-mutation calls ---------------------------------------------------
+//
+// The cluster's recording store hands the inner store ONE mutation per call (each needs its own
+// linearization point), so the store's handling of several mutations of one channel inside ONE call -
+// where a later mutation is validated against a predecessor that is only staged - is driven here,
+// directly at the exported store seam, and validated by the same Trace.tla store contract
+// (SyncExpect): mutations of a call are judged one after the other, each against the log the
+// previous ones left.  Shapes: the next proposal, a retry of a stored one, a sibling (same base,
+// same term, other content) of a stored or just-staged proposal, and a proposal chained onto a sibling
+// the store does not hold (same predecessor index and term, other digest).
+func storeContractTrace(rng *rand.Rand, rep *kit.Report, rec *kit.Recorder, factory func() channelstore.Factory, steps int) error {
+	f := factory()
+	defer func() {
+		if cl, ok := f.(interface{ Close() error }); ok {
+			_ = cl.Close()
+		}
+	}()
+	adapter, err := replication.NewStoreAdapter(replication.StoreAdapterConfig{Factory: f, MaxBatchItems: replication.MaxExchangeBatchItems, MaxBatchBytes: 4 << 20})
+	if err != nil {
+		return err
+	}
+	rec.Begin(map[string]any{"cfg": map[string]any{"hedge_ms": int64(0), "retained": 0, "scripted": "store-contract"}}, nil)
+	c := &cluster{rec: rec}
+	probe := &recStore{c: c, n: voters[0], inner: adapter}
+	type sealed struct {
+		m    replication.Mutation
+		tail ch.EntryIdentity // identity of its last entry
+	}
+	seq := 1000 + rng.Intn(1000)*10
+	seal := func(base uint64, prev ch.EntryIdentity, nrec int) (sealed, bool) {
+		seq++
+		cmd := mkCommand(seq, nrec, 1, 0)
+		manifest, ids, ok := ch.SealProposalManifest(ch.ProposalManifest{
+			Version: ch.ProposalManifestVersion, ChannelEpoch: 1, LeaderTerm: 1, FenceVersion: 1,
+			CommandID: cmd.id, BaseOffset: base, LastOffset: base + uint64(nrec),
+			PreviousTerm: prev.LeaderTerm, PreviousIndex: base, PreviousDigest: prev.Digest,
+		}, cmd.records)
+		if !ok || len(ids) != nrec {
+			return sealed{}, false
+		}
+		return sealed{m: replication.Mutation{ChannelKey: chanKey, ChannelID: chanID, Manifest: manifest, Records: cmd.records,
+			Class: replication.MutationClassTrailing, ServerAllocatedMessageIDs: cmd.serverAlloc}, tail: ids[nrec-1]}, true
+	}
+	// what the harness believes is stored: proposals in order (the specification decides; this only
+	// steers generation)
+	var stored []sealed
+	var siblings []sealed // sealed but never offered as "next": same base/term as a stored proposal
+	tailOf := func(ps []sealed) (uint64, ch.EntryIdentity) {
+		if len(ps) == 0 {
+			return 0, ch.EntryIdentity{}
+		}
+		last := ps[len(ps)-1]
+		return last.m.Manifest.LastOffset, last.tail
+	}
+	for s := 0; s < steps; s++ {
+		staged := append([]sealed(nil), stored...)
+		var call []sealed
+		for k, n := 0, 1+rng.Intn(3); k < n; k++ {
+			end, tail := tailOf(staged)
+			var p sealed
+			ok := false
+			switch r := rng.Intn(10); {
+			case r < 4 || len(staged) == 0: // the next proposal
+				if p, ok = seal(end, tail, 1+rng.Intn(2)); ok {
+					staged = append(staged, p)
+				}
+			case r < 5: // retry of a stored / staged proposal
+				p, ok = staged[rng.Intn(len(staged))], true
+			case r < 7: // a sibling of the last stored / staged proposal: same base and term, other content
+				last := staged[len(staged)-1]
+				_, prevTail := tailOf(staged[:len(staged)-1])
+				if p, ok = seal(last.m.Manifest.BaseOffset, prevTail, len(last.m.Records)); ok {
+					siblings = append(siblings, p)
+				}
+			default: // chained onto a sibling the store does not hold (index and term match, digest differs)
+				var cands []sealed
+				for _, sb := range siblings {
+					if sb.m.Manifest.LastOffset == end && sb.tail.Digest != tail.Digest {
+						cands = append(cands, sb)
+					}
+				}
+				if len(cands) == 0 {
+					last := staged[len(staged)-1]
+					_, prevTail := tailOf(staged[:len(staged)-1])
+					sb, sok := seal(last.m.Manifest.BaseOffset, prevTail, len(last.m.Records))
+					if !sok {
+						continue
+					}
+					siblings = append(siblings, sb)
+					cands = append(cands, sb)
+				}
+				sb := cands[rng.Intn(len(cands))]
+				p, ok = seal(end, sb.tail, 1)
+				rep.Cover("StoreCallChainedOnAbsentSibling")
+			}
+			if ok {
+				call = append(call, p)
+			}
+		}
+		if len(call) == 0 {
+			continue
+		}
+		// Committed stays 0: a single store has no quorum that could have proven a frontier (the trace
+		// module's C02_CommittedHeldByQuorum would rightly object); the subject here is the chain.
+		muts := make([]replication.Mutation, len(call))
+		for i, p := range call {
+			muts[i] = p.m
+		}
+		res := adapter.Sync(context.Background(), muts)
+		if len(res) != len(muts) {
+			return fmt.Errorf("store answered %d results for %d mutations", len(res), len(muts))
+		}
+		rep.Cover(fmt.Sprintf("StoreCall/%d", len(muts)))
+		post := probe.state()
+		for i, m := range muts {
+			st := map[string]any{"leo": int64(0), "cm": int64(0), "tail": "", "part": true}
+			if i == len(muts)-1 {
+				st = post
+			}
+			c.event(kit.Ev("Sync", "n", int(voters[0]), "cls", "trailing", "base", int64(m.Manifest.BaseOffset),
+				"prev", dig(m.Manifest.PreviousDigest), "ents", entriesOf(m.Manifest, m.Records), "cm", int64(m.Committed),
+				"res", map[string]any{"out": outcomeName(res[i].Outcome)}, "st", st))
+			if res[i].Outcome == ch.AppendOutcomeDurable {
+				stored = append(stored, call[i])
+			}
+		}
+	}
+	rep.Replayed(1)
 	return nil
 }
